@@ -49,8 +49,13 @@ func (p Precompile) DepositOrWithdraw(
 		return nil, err
 	}
 
+	// The booking in x/assets and, for native restaking, the update of the oracle's validator list
+	// are made in one cache context that is written only if every step succeeded: a failure is
+	// reported as `false` by Run without reverting, so it must not leave a partial booking behind.
+	cc, writeFunc := ctx.CacheContext()
+
 	// call assets keeper to perform the deposit or withdraw action
-	err = p.assetsKeeper.PerformDepositOrWithdraw(ctx, depositWithdrawParams)
+	err = p.assetsKeeper.PerformDepositOrWithdraw(cc, depositWithdrawParams)
 	if err != nil {
 		return nil, err
 	}
@@ -64,7 +69,7 @@ func (p Precompile) DepositOrWithdraw(
 		}
 		_, assetID := assetstypes.GetStakerIDAndAssetID(depositWithdrawParams.ClientChainLzID,
 			depositWithdrawParams.StakerAddress, depositWithdrawParams.AssetsAddress)
-		err = p.assetsKeeper.UpdateNSTValidatorListForStaker(ctx, assetID,
+		err = p.assetsKeeper.UpdateNSTValidatorListForStaker(cc, assetID,
 			hexutil.Encode(depositWithdrawParams.StakerAddress),
 			hexutil.Encode(depositWithdrawParams.ValidatorPubkey),
 			opAmount)
@@ -75,10 +80,11 @@ func (p Precompile) DepositOrWithdraw(
 
 	// get the latest asset state of staker to return.
 	stakerID, assetID := assetstypes.GetStakerIDAndAssetID(depositWithdrawParams.ClientChainLzID, depositWithdrawParams.StakerAddress, depositWithdrawParams.AssetsAddress)
-	info, err := p.assetsKeeper.GetStakerSpecifiedAssetInfo(ctx, stakerID, assetID)
+	info, err := p.assetsKeeper.GetStakerSpecifiedAssetInfo(cc, stakerID, assetID)
 	if err != nil {
 		return nil, err
 	}
+	writeFunc()
 	return method.Outputs.Pack(true, info.TotalDepositAmount.BigInt())
 }
 
